@@ -583,7 +583,9 @@ def aggregate_timeseries(scenario, gcID):
 
         # schedule + window schedule
         if hasSchedule:
-            row.append(round(scenario.gcPowerSchedule[gcID][idx], round_to_places))  # float
+            # float, or None as long as no schedule has been received
+            schedule = scenario.gcPowerSchedule[gcID][idx]
+            row.append(round(schedule, round_to_places) if schedule is not None else None)
         if hasWindows:
             row.append(scenario.gcWindowSchedule[gcID][idx])
 
